@@ -1,7 +1,5 @@
 """C08 - d-separation answers match the path-based definition (DESIGN.md §6 C08)."""
-from contracts.common import CLASSES
 from vf.bounded import c08 as B
-from vf.pyvc import run as e1run
 
 LEVEL = "proof"
 E1_FUNCTIONS = ["DAG._get_ancestors_of", "DAG.active_trail_nodes"]
@@ -13,10 +11,6 @@ ASSUMPTIONS = ["partial correctness only (termination of the worklist loops is n
 EXPLANATION = ("E1: verification conditions generated from the real source of the listed functions against sidecar contracts "
                "(contracts/c08.py), discharged by z3 for graphs of any size. Bounded groups (E3) run the real API against a "
                "trail-enumerating oracle; they are the replay path and the stand-in for functions not under contract.")
-
-
-def e1(rep, tier):
-    e1run.verify_functions(rep, ["contracts.c08"], E1_FUNCTIONS, CLASSES)
 
 
 def groups(tier):
